@@ -137,6 +137,7 @@ def _is_unreachable(f, b):
 
 
 def _mentions_call_at(e, callee, bb):
+    # (lexer functions are analysed as they are, never as views: block ids are their own origin)
     for x in expr_walk(e):
         if isinstance(x, tuple) and x[0] == 'call' and x[1] == callee and x[3] == bb:
             return True
